@@ -192,6 +192,9 @@ structure CacheEntry where
   /-- `Instant` (seconds of the monotonic clock) until which the entry is served -/
   expires : Nat
   verdict : Verdict
+  /-- only used by the repaired cache: for a Secure verdict, the validator time at which the
+  signature was checked and the seconds it remained valid from then on -/
+  sigSpan : Option (Nat × Nat) := none
   deriving Repr, DecidableEq, Inhabited
 
 abbrev Cache := List CacheEntry
@@ -202,11 +205,12 @@ structure CacheConfig where
   negative : Option (Nat × Nat) := none
   deriving Repr, DecidableEq, Inhabited
 
-/-- `ValidationCache::get` : an entry is served while `Instant::now() < expires`; it never looks at
-the validator's clock nor at the signature's expiration. -/
-def cacheGet (c : Cache) (key : CacheKey) (inst : Nat) : Option Verdict :=
+/-- the live entry for `key`, if any: `ValidationCache::get` serves an entry while
+`Instant::now() < expires`; it never looks at the validator's clock nor at the signature's
+expiration. -/
+def cacheGetE (c : Cache) (key : CacheKey) (inst : Nat) : Option CacheEntry :=
   match c.find? (fun e => e.key == key) with
-  | some e => if inst < e.expires then some e.verdict else none
+  | some e => if inst < e.expires then some e else none
   | none => none
 
 /-- `Duration::clamp(min, max)`; panics when `min > max` (`assert!(min <= max)`) -/
@@ -219,15 +223,6 @@ def cacheLifetime (cfg : CacheConfig) (v : Verdict) (firstTtl : Nat) : Nat :=
   match (if v.isOk then cfg.positive else cfg.negative) with
   | some (lo, hi) => clampDur firstTtl lo hi
   | none => firstTtl
-
-/-- `ValidationCache::insert` (no entry when the RRset has no record) -/
-def cacheInsert (cfg : CacheConfig) (c : Cache) (key : CacheKey) (v : Verdict)
-    (firstTtl : Option Nat) (inst : Nat) : Cache :=
-  match firstTtl with
-  | none => c
-  | some t =>
-    { key := key, expires := inst + cacheLifetime cfg v t, verdict := v } ::
-      c.filter (fun e => !(e.key == key))
 
 /-- One RRset validation request as `verify_rrsets` sees it (non-DNSKEY RRset, one RRSIG, the DNSKEY
 lookup answered with `dnskeys`). -/
@@ -251,22 +246,77 @@ def freshVerdict (sigValid : SigOracle) (r : Request) : Verdict :=
   | some (p, ttl) => { isOk := true, proof := p, adjustedTtl := ttl }
   | none => { isOk := false, proof := .bogus, adjustedTtl := none }
 
-/-- the cache part of `verify_rrsets` for one RRset: returns the new cache, the verdict, and
-whether it was freshly computed. -/
-def validate (sigValid : SigOracle) (cfg : CacheConfig) (c : Cache) (r : Request) :
-    Cache × Verdict × Bool :=
-  match cacheGet c r.ck r.inst with
+/-- (repaired cache only) the span recorded with a Secure verdict: validated at `now`, the signature
+remains valid `expiration.saturating_sub(now)` seconds -/
+def spanOf (v : Verdict) (r : Request) : Option (Nat × Nat) :=
+  if v.isOk && v.proof == .secure then some (r.now, r.rrsig.input.expiration - r.now) else none
+
+/-- the entry `ValidationCache::insert` creates for the fresh verdict `v` of request `r` whose first
+record has TTL `t` -/
+def entryOf (cfg : CacheConfig) (r : Request) (v : Verdict) (t : Nat) : CacheEntry :=
+  { key := r.ck, expires := r.inst + cacheLifetime cfg v t, verdict := v, sigSpan := spanOf v r }
+
+/-- `ValidationCache::insert` (no entry when the RRset has no record) -/
+def cacheInsert (cfg : CacheConfig) (c : Cache) (r : Request) (v : Verdict) : Cache :=
+  match r.records.head?.map (·.ttl) with
+  | none => c
+  | some t => entryOf cfg r v t :: c.filter (fun e => !(e.key == r.ck))
+
+/-- the cache part of `verify_rrsets` for one RRset, generic in what `get` does with a live entry
+(`serve entry request`: `none` = treat as a miss): returns the new cache, the verdict, and whether
+it was freshly computed. -/
+def validateG (sigValid : SigOracle) (cfg : CacheConfig) (serve : CacheEntry → Request → Option Verdict)
+    (c : Cache) (r : Request) : Cache × Verdict × Bool :=
+  match (cacheGetE c r.ck r.inst).bind (fun e => serve e r) with
   | some v => (c, v, false)
   | none =>
     let v := freshVerdict sigValid r
-    (cacheInsert cfg c r.ck v (r.records.head?.map (·.ttl)) r.inst, v, true)
+    (cacheInsert cfg c r v, v, true)
 
 /-- a whole history, oldest request first; returns the per-request (verdict, fresh) list -/
-def runHistory (sigValid : SigOracle) (cfg : CacheConfig) : Cache → List Request → List (Verdict × Bool)
+def runHistoryG (sigValid : SigOracle) (cfg : CacheConfig) (serve : CacheEntry → Request → Option Verdict) :
+    Cache → List Request → List (Verdict × Bool)
   | _, [] => []
   | c, r :: rs =>
-    let (c', v, fresh) := validate sigValid cfg c r
-    (v, fresh) :: runHistory sigValid cfg c' rs
+    let (c', v, fresh) := validateG sigValid cfg serve c r
+    (v, fresh) :: runHistoryG sigValid cfg serve c' rs
+
+/-- **the code as it is**: `get` returns the stored verdict of a live entry, whatever the
+validator's clock says -/
+def serveAsIs (e : CacheEntry) (_ : Request) : Option Verdict := some e.verdict
+
+def validate (sigValid : SigOracle) (cfg : CacheConfig) (c : Cache) (r : Request) :
+    Cache × Verdict × Bool := validateG sigValid cfg serveAsIs c r
+
+def runHistory (sigValid : SigOracle) (cfg : CacheConfig) (c : Cache) (hist : List Request) :
+    List (Verdict × Bool) := runHistoryG sigValid cfg serveAsIs c hist
+
+/-! #### the repaired cache (repo-patches/C06-validation-cache-signature-span.diff)
+
+Not the code as it is today: with a Secure verdict the entry records the validator time of the
+check and the seconds the signature remained valid from then on; `get` serves the entry only while
+the validator's clock is inside that span (serial distance, so a clock set back is a miss too) and
+hands out at most what is left of it as TTL. -/
+
+def M32 : Nat := 4294967296
+
+/-- repaired `get` on a live entry -/
+def serveFixed (e : CacheEntry) (r : Request) : Option Verdict :=
+  match e.sigSpan with
+  | some (validatedAt, lifetime) =>
+    let elapsed := (r.now + M32 - validatedAt) % M32      -- `current_time.wrapping_sub(validated_at)`
+    if elapsed > lifetime then none
+    else
+      match e.verdict.adjustedTtl with
+      | some t => some { e.verdict with adjustedTtl := some (min t (lifetime - elapsed)) }
+      | none => some e.verdict
+  | none => some e.verdict
+
+def validateFixed (sigValid : SigOracle) (cfg : CacheConfig) (c : Cache) (r : Request) :
+    Cache × Verdict × Bool := validateG sigValid cfg serveFixed c r
+
+def runHistoryFixed (sigValid : SigOracle) (cfg : CacheConfig) (c : Cache) (hist : List Request) :
+    List (Verdict × Bool) := runHistoryG sigValid cfg serveFixed c hist
 
 /-- `VerifiedRrset::update_rrset` : the TTL every record of the RRset leaves with -/
 def updatedTtl (v : Verdict) (recordTtl : Nat) : Nat :=
